@@ -89,13 +89,19 @@ class SD(pg.Object):
   y: T.Any() = None
 
 
+class DV(pg.Object):
+  """Dict fields whose non-const keys carry a default / a frozen value."""
+  d: T.Dict([('k', T.Int(default=1)), (T.StrKey('u.*'), T.Int(default=5))]) = {}
+  f: T.Dict([(T.StrKey(), T.Int().freeze(1))]) = {}
+
+
 class DK(pg.Object):
   """Dict-typed fields whose keys are not fixed by the schema (any key / any str key)."""
   m: T.Dict() = {}
   s: T.Dict([(T.StrKey(), T.Any())]) = {}
 
 
-CLASSES = {c.__name__: c for c in (P, Q, R, W, NC, Typed, Req, HT, HDoc, DK, SD)}
+CLASSES = {c.__name__: c for c in (P, Q, R, W, NC, Typed, Req, HT, HDoc, DK, SD, DV)}
 UNTYPED = ('P', 'Q', 'R', 'W')
 FIELDS = {'P': ('x', 'y'), 'Q': ('x', 'y'), 'R': ('x', 'y', 'z'), 'W': ('a', 'b'),
-          'NC': ('x', 'y'), 'HDoc': ('x', 'y'), 'Typed': ('i', 's', 'e', 'l', 'd', 't', 'o', 'u'), 'Req': ('r', 'n'), 'DK': ('m', 's'), 'SD': ('x', 'y')}
+          'NC': ('x', 'y'), 'HDoc': ('x', 'y'), 'Typed': ('i', 's', 'e', 'l', 'd', 't', 'o', 'u'), 'Req': ('r', 'n'), 'DK': ('m', 's'), 'SD': ('x', 'y'), 'DV': ('d', 'f')}
